@@ -6,6 +6,8 @@
     the logged uniform and the threshold 1/(c-1), and that the squares branch's probability vector is the normalised
     squared first-place shares (exact reference tallies of the recorded input profile);
  B  BRD's branch threshold located by bisection on the *scripted* uniform;
+ T  tie population (exact): Plurality/SNTV boundary ties and IRV elimination ties among candidates whose totals are equal as
+    rationals but reached through different decompositions; under every schedule the deciding draw must range over all of them;
  F  end-to-end seeded frequency tests (genuine generator): winner (sequence) frequencies against the enumerated law,
     and uniformity of random tie resolution (Plurality boundary tie, STV elimination tie); exact binomial, two-stage.
 """
@@ -24,7 +26,7 @@ N1 = {"quick": 1200, "thorough": 3000}
 WALL = 240.0
 RULE_TEXT = (
     "case kinds: O = seeded profile (tied first places, partial ballots, rational weights, zero-vote candidates) x RandomDictator|BoostedRandomDictator x m under 4 schedules "
-    "with every logged draw audited; B = BRD with the acceptance threshold located by bisection on the scripted uniform; F = n1 seeded constructions (genuine generator) of "
+    "with every logged draw audited; B = BRD with the acceptance threshold located by bisection on the scripted uniform; T = Plurality/SNTV/IRV tie among exactly level candidates (totals decomposed differently), the draw population audited under 4 schedules; F = n1 seeded constructions (genuine generator) of "
     "RD/BRD (m in 1..2), Plurality with a boundary tie or STV with an elimination tie, frequencies vs the enumerated law. non-trivial = O/B with >=2 rounds or a tied first "
     "place, every F; distinct = distinct (kind, rule, m, profile shape, branch pattern) signature"
 )
@@ -58,7 +60,7 @@ def mentioned(jp):
 
 def generate(run_seed, tier):
     rng = stream(run_seed, "gen")
-    kind = G.wchoice(rng, [("O", 80), ("B", 12), ("F", 2.5 if tier == "quick" else 4)])
+    kind = G.wchoice(rng, [("O", 80), ("B", 12), ("T", 14), ("F", 2.5 if tier == "quick" else 4)])
     seed = derive(run_seed, "stream") % 10**9
     if kind in ("O", "B"):
         jp = gen_profile(rng)
@@ -66,7 +68,7 @@ def generate(run_seed, tier):
         m = rng.randint(1, max(1, min(len(mentioned(jp)), 3)))
         case = {"kind": kind, "rule": rule, "kw": {"m": m}, "profile": jp, "policies": common.gen_policies(rng, run_seed), "seed": seed}
         return case
-    sub = rng.choice(["RandomDictator", "BoostedRandomDictator", "PluralityTie", "STVElimTie"])
+    sub = rng.choice(["RandomDictator", "BoostedRandomDictator", "PluralityTie", "STVElimTie"]) if kind == "F" else rng.choice(["PluralityTie", "STVElimTie"])
     if sub in ("RandomDictator", "BoostedRandomDictator"):
         jp = gen_profile(rng)
         jp["candidates"] = jp["candidates"][:4]
@@ -110,10 +112,12 @@ def generate(run_seed, tier):
         # Plurality: an outsider seated before the tie; IRV: an outsider above the tied (lowest) candidates but short of a majority
         bs.append({"r": [[names[-1]]], "w": canon.fs(each * 3 if sub == "PluralityTie" else each * Fraction(3, 2))})
     jp = {"candidates": names, "ballots": bs}
+    pols = common.gen_policies(rng, run_seed) if kind == "T" else []
     if sub == "PluralityTie":
         m = rng.randint(1, k - 1) + (1 if len(names) > k else 0)
-        return {"kind": "F", "sub": sub, "rule": "Plurality", "kw": {"m": m, "tiebreak": "random"}, "profile": jp, "n1": N1[tier], "seed": seed, "tied": tied, "policies": []}
-    return {"kind": "F", "sub": sub, "rule": "IRV", "kw": {"tiebreak": "random"}, "profile": jp, "n1": N1[tier], "seed": seed, "tied": tied, "policies": []}
+        rule = rng.choice(["Plurality", "SNTV"]) if kind == "T" else "Plurality"
+        return {"kind": kind, "sub": sub, "rule": rule, "kw": {"m": m, "tiebreak": "random"}, "profile": jp, "n1": N1[tier], "seed": seed, "tied": tied, "policies": pols}
+    return {"kind": kind, "sub": sub, "rule": "IRV", "kw": {"tiebreak": "random"}, "profile": jp, "n1": N1[tier], "seed": seed, "tied": tied, "policies": pols}
 
 
 def shrink_steps(case):
@@ -435,7 +439,65 @@ def execute_freq(case, trace):
     return res
 
 
+def execute_tieset(case, trace):
+    """deterministic companion of the frequency arm: candidates whose totals are exactly equal (as rationals, by construction) and
+    straddle the contested seat must ALL be in the population of the draw that decides among them -- a tied candidate left out of
+    the draw takes the seat (or is eliminated) with probability 0 instead of 1/k.  Only draws whose population is recognisable as
+    candidates are judged; a population that is a superset of the tied set (e.g. a shuffle of all candidates) is accepted."""
+    violations, probes, faults, policies = [], {}, {}, {}
+    S = set(case["tied"])
+    names = set(case["profile"]["candidates"])
+    digs, logs = [], []
+    rounds = draws = 0
+
+    def flat(pop):
+        out = []
+        for x in pop:
+            if isinstance(x, list):
+                out.extend(flat(x))
+            else:
+                out.append(x)
+        return out
+
+    for pol in case["policies"]:
+        o = common.run_rule(case, pol, log_populations=True)
+        policies[pol["kind"]] = policies.get(pol["kind"], 0) + 1
+        draws += o.seam.draws
+        if o.election is None:
+            probes["left_to_C01:" + type(o.exc).__name__] = probes.get("left_to_C01:" + type(o.exc).__name__, 0) + 1
+            continue
+        rounds += len(o.election.election_states) - 1
+        cand_draws = []
+        for e in o.seam.log:
+            pop = flat(e.get("pop") or [])
+            if pop and all(isinstance(x, str) and x in names for x in pop):
+                cand_draws.append(set(pop))
+        if not cand_draws:
+            probes["tie_draw_not_recognisable"] = probes.get("tie_draw_not_recognisable", 0) + 1
+        elif not any(S <= p for p in cand_draws):
+            faults["decomposed_exact_ties"] = faults.get("decomposed_exact_ties", 0) + 1
+            violations.append({
+                "clause": "tie-population",
+                "message": f"{case['rule']} {case['kw']} on {case['profile']} under schedule {pol['kind']}: candidates {sorted(S)} have exactly equal totals across the contested seat, "
+                           f"but the random draws were made over {[sorted(p) for p in cand_draws][:4]} only: a tied candidate outside the draw can never take the seat / be the one eliminated",
+                "sig": {"kind": "T", "rule": case["sub"], "clause": "tie-population"},
+            })
+            break
+        else:
+            faults["decomposed_exact_ties"] = faults.get("decomposed_exact_ties", 0) + 1
+        digs.append(canon.cstates(o.election))
+        if trace:
+            logs.append({"policy": pol, "draws": common.trim_log(o.seam), "states": canon.cstates(o.election)})
+    res = {"violations": violations, "probes": probes, "faults": faults, "policies": policies, "trace": f"T|{case['sub']}|{case['rule']}|{len(S)}|{len(names)}|{case['kw'].get('m')}",
+           "nontrivial": True, "rounds": rounds, "draws": draws, "digest": digest(digs), "summary": {"rule": case["rule"], "tied": sorted(S)}}
+    if trace:
+        res["log"] = logs
+    return res
+
+
 def execute(case, trace=False):
+    if case["kind"] == "T":
+        return execute_tieset(case, trace)
     if case["kind"] == "O":
         return execute_observe(case, trace)
     if case["kind"] == "B":
